@@ -10,12 +10,27 @@ Obligation(r) ==
   CASE r.e = "call" -> /\ r.known /\ EntryOf(r.n) # 0
                        /\ LET e == Entries[EntryOf(r.n)] IN r.nouts = e.o /\ CallOK(e, r.pos, r.v, r)
     \* a parser returns a value or throws the library's exception; nothing else
-    [] r.e = "str" -> r.out \in {"ok", "GeographicErr"}
+    \* and when it throws, the arguments it uses for return values are exactly as they were (unt: every pre-filled output
+    \* still holds its value, in both pre-fill phases; same: both phases end the same way)
+    [] r.e = "str" -> r.out \in {"ok", "GeographicErr"} /\ (r.out # "ok" => r.unt = 1 /\ r.same)
     \* a corrupted save is rejected with the library's exception or loads into a usable object
-    [] r.e = "nn" -> r.out \in {"ok", "GeographicErr"} /\ r.usable /\ (r.fault = "none" => r.out = "ok")
+    \* usable: Search accepts the point array the tree was built from ("GeographicErr if pts has a different size", so a
+    \* tree that answers has np = npts) and every index it returns is an index of that array; the unfaulted save returns
+    \* 3 and npts neighbours for each of the 6 query points
+    [] r.e = "nn" -> /\ r.out \in {"ok", "GeographicErr"}
+                     /\ (r.out = "ok" => r.np = r.npts /\ r.nq = 12 /\ (r.nret > 0 => r.imin >= 0 /\ r.imax < r.npts))
+                     /\ (r.fault = "none" => r.out = "ok" /\ r.nret = 6 * 3 + 6 * r.npts)
+                     \* "If an exception is thrown, the state of the NearestNeighbor is unchanged": the object that refused the
+                     \* save still answers every query as the valid tree it held does (kept)
+                     /\ (r.np < 0 => r.kept)
     \* a malformed model file is rejected with the library's exception (or an allocation failure); if it is accepted the
     \* model must be usable (evaluation returns; non-finite values are possible when the file holds non-finite coefficients)
-    [] r.e = "mfile" -> r.out \in {"ok", "GeographicErr", "bad_alloc"} /\ (r.fault = "none" => r.out = "ok" /\ r.finite)
+    \* A coefficient set with N = M = -1 and no coefficients is well formed ("N >= -1", "N >= M >= -1", (M+1)(2N-M+2)/2 = 0
+    \* elements): such a file must load and evaluate - any set of a magnetic model, the correction set (second set) of a gravity model.
+    [] r.e = "mfile" -> /\ r.out \in {"ok", "GeographicErr", "bad_alloc"}
+                        /\ (r.fault = "none" => r.out = "ok" /\ r.finite)
+                        /\ (r.fault = "empty" /\ (r.kind \in {"mag", "mag10", "mag20", "mag21"} \/ r.param = 1) => r.out = "ok" /\ r.finite)
+                        /\ (r.out = "ok" => r.nev = (IF r.kind \in {"grv", "grv0"} THEN 6 ELSE 13))
     [] r.e = "gfile" -> r.out \in {"ok", "GeographicErr", "bad_alloc"} /\ (r.fault = "none" => r.out = "ok" /\ r.finite)
     \* the allocator of the sanitizer build refused a huge request: counts as an allocation failure
     [] r.e = "crash" /\ r.what = "alloc" -> TRUE
